@@ -23,3 +23,55 @@ TRUSTED_BASE = [
 ]
 
 NOTES = {}
+
+NOT_APPLICABLE = {
+    'C02': 'quantifies over thread schedules of DashMap shard locks and crossbeam channels: Kani has no thread model and the code uses none of the permission types Verus needs; no function contract can express or decide it',
+    'C09': 'deadlock / livelock freedom and progress of a busy-wait loop under thread schedules: a liveness property over schedules, outside function contracts (termination of the sequential loops is reported under C08)',
+    'C16': 'exactly-once iteration is the contract of std HashMap / dashmap iterators (dependencies, assumed not verified) and of schedules; the only repository code on that path, the expiry filter is_expired_entry, is decided under C05/C06',
+    'C17': 'builder / policy contracts not wired yet in this revision',
+}
+
+_UNS = 'single-threaded cache (src/unsync/cache.rs) only; the concurrent cache mutates shared state through &self (atomics, Mutex, DashMap), which neither back end can frame: not covered. '
+_ENV = 'Assumed contracts (trusted): std HashMap as a map view, the raw-pointer Deque/Deques layer as sequence views (checked separately by bounded Kani harnesses), Instant/Duration arithmetic, a pure weigher, key identity through Hash/Eq/Borrow coherence, fewer than 2^32 entries, one named clock reading per operation.'
+
+CLAIMS = {
+    'C01': dict(technique='Verus contracts on the extracted unsync insert/get/contains_key/invalidate* functions + relational lemmas',
+                text='every lookup answer is specified as a function of the map view (value of the resident binding, absent after invalidate*) and proved for all keys, hashers, weights, capacities and clock readings',
+                note=_UNS + _ENV + ' invalidate_entries_if and iteration are outside reach (iterator adapters).'),
+    'C03': dict(technique='Verus contracts: free-space branch of handle_insert, frame clauses of the housekeeping functions, weight invariant',
+                text='an insert that fits is proved to add the entry and remove nobody; housekeeping is proved to remove nothing when within capacity and without expiry; counters proved exact so room is never under-estimated',
+                note=_UNS + _ENV + ' Gap: that an entry purged by the expiry scan is really expired relies on the node/entry timestamp coupling (raw pointer), which the ownership-sound model cannot state.'),
+    'C04': dict(technique='Verus contracts: weight postconditions of handle_insert / admit / handle_update / evict_lru_entries',
+                text='weighted_size is proved to equal the resident weight, oversize inserts proved rejected, admission proved to free at least the candidate weight, eviction proved to continue until within capacity (batch of 100)',
+                note=_UNS + _ENV + ' The concurrent overshoot bound is a schedule property: not covered.'),
+    'C05': dict(technique='Verus contracts: is_expired_entry_wo against the declarative predicate, lookup answers, timestamp clauses of insert/update',
+                text='a lookup hit is proved to imply last_modified + ttl > now for the clock reading of that call, and every insert/update proved to restart the interval; boundary and ttl=0 are inside the quantifier',
+                note=_UNS + _ENV),
+    'C06': dict(technique='Verus contracts: is_expired_entry_ao, record_hit, frame clauses of contains_key',
+                text='same as C05 for the idle timer; contains_key is proved to leave every timestamp untouched, only a get hit writes last_accessed',
+                note=_UNS + _ENV + ' iteration takes &self and cannot write (type system).'),
+    'C07': dict(technique='Verus contracts on unsync invalidate / invalidate_all',
+                text='invalidate(k) is proved to remove exactly the binding of k from what housekeeping left, invalidate_all to empty map and lists; only insert adds keys',
+                note=_UNS + _ENV + ' invalidate_entries_if is outside reach of Verus (iterator adapter chain): regression replay only.'),
+    'C08': dict(technique='Verus built-in obligations (overflow, index, unwrap/expect/panic reachability) on every function under contract; Kani pointer checks on the list layer',
+                text='no arithmetic overflow, out-of-range index or reachable internal panic in any function under contract for all inputs satisfying the invariant',
+                note=_UNS + _ENV + ' Raw-pointer list sequences are bounded Kani stand-ins, not proofs; sync maintenance, Drop and invalidate_entries_if are not covered.'),
+    'C10': dict(technique='Verus representation invariant: entry_count == |list|, weighted_size == sum of resident weights, as postcondition of every operation',
+                text='both counters are proved exact after every public operation of the single-threaded cache, for every history',
+                note=_UNS + _ENV),
+    'C11': dict(technique='Verus invariant "every list node belongs to exactly one map entry" + bounded Kani drop counting on the list layer',
+                text='no removal path can leave a node (and the key clone it pins) behind: proved for all histories; exactly-once release of the raw nodes themselves is a bounded check',
+                note=_UNS + _ENV + ' Safe-Rust ownership gives exactly-once for everything not behind a raw pointer.'),
+    'C12': dict(technique='Verus sequence-valued postconditions on the probation list (moved_to_back, skip(n), least sufficient prefix)',
+                text='hits and updates are proved to move exactly that key to the MRU end, evictions and admissions to remove exactly the shortest sufficient LRU prefix',
+                note=_UNS + _ENV),
+    'C13': dict(technique='Verus: admit proved equivalent to the declarative spec_admit of the property statement',
+                text='Admitted <==> (shortest sufficient LRU prefix exists and candidate frequency > summed victim frequency); rejected inserts proved to touch no resident',
+                note=_UNS + _ENV + ' frequencies are read through the verified FrequencySketch::frequency contract.'),
+    'C14': dict(technique='Verus contracts on the verbatim FrequencySketch functions (bit-vector lemmas) + cache-level frame clauses',
+                text='every function of frequency_sketch.rs verified against nibble-level postconditions for all tables and hashes; get proved to record exactly once, every other operation never',
+                note='assumes std specs of count_ones/next_power_of_two/pow/into_boxed_slice; sketch table <= 2^27 words; ' + _ENV),
+    'C15': dict(technique='Verus frame contract: contains_key leaves exactly the state the housekeeping prefix leaves',
+                text='contains_key is proved to change nothing beyond the housekeeping every operation starts with: same estimator, same recency order of survivors, same timestamps',
+                note=_UNS + _ENV + ' iter takes &self (no interior mutability in the unsync cache).'),
+}
